@@ -450,18 +450,20 @@ PlayerRedeemChips 增購籌碼
 */
 func (te *tableEngine) PlayerRedeemChips(joinPlayer JoinPlayer) error {
 	// like a re-buy (PlayerReserve): serialized with the opening of a hand, whose table clone would
-	// otherwise drop chips added at that moment
+	// otherwise drop chips added at that moment. The lock covers the update only: the notifications
+	// below are sent without it, as they always were for an add-on (a consumer may answer from inside them).
 	te.lock.Lock()
-	defer te.lock.Unlock()
 
 	// find player index in PlayerStates
 	playerIdx := te.table.FindPlayerIdx(joinPlayer.PlayerID)
 	if playerIdx == UnsetValue {
+		te.lock.Unlock()
 		return ErrTablePlayerNotFound
 	}
 
 	playerState := te.table.State.PlayerStates[playerIdx]
 	playerState.Bankroll += joinPlayer.RedeemChips
+	te.lock.Unlock()
 
 	te.emitEvent("PlayerRedeemChips", joinPlayer.PlayerID)
 	te.emitTablePlayerStateEvent(playerState)
